@@ -70,6 +70,16 @@ func (lv *LeafVariants) containsOtherOwnerThenDefaultOrRunning() bool {
 	return foundOther
 }
 
+// containsOwner returns true if a leafentry of the given owner exists
+func (lv *LeafVariants) containsOwner(owner string) bool {
+	for _, le := range lv.les {
+		if le.Owner() == owner {
+			return true
+		}
+	}
+	return false
+}
+
 // canDelete returns true if leafValues exist that are not owned by default or running that do not have the DeleteFlag set [or if delete is set, also the DeleteOnlyIntendedFlag set]
 func (lv *LeafVariants) canDelete() bool {
 	lv.lesMutex.RLock()
@@ -79,8 +89,8 @@ func (lv *LeafVariants) canDelete() bool {
 		return true
 	}
 
-	// if we have runnig and only running we should not delete
-	if len(lv.les) == 1 && lv.les[0].Owner() == RunningIntentName {
+	// if we have runnig and only running (possibly along with the default) we should not delete
+	if !lv.containsOtherOwnerThenDefaultOrRunning() && lv.containsOwner(RunningIntentName) {
 		return false
 	}
 
